@@ -188,7 +188,9 @@ def make_case(rng, idx):
         mapping = {}
         for k, u in world["mapping_wanted"]:
             mk = rng.choice([k, k[0].lower() + k[1:], k[0].upper() + k[1:]]).replace("\\", "/")
-            v = rng.choice([u, u, (R + "/" + (sd_rel + "/" if sd_rel else "") + u), "./" + u, "zz/../" + u])
+            # (the mapped value may be a build-machine path under the prefix: mapped first, then the prefix is removed)
+            v = rng.choice([u, u, (R + "/" + (sd_rel + "/" if sd_rel else "") + u), "./" + u, "zz/../" + u] +
+                           ([prefix.rstrip("/") + "/" + u, prefix.rstrip("/") + "//" + u] if prefix else []))
             mapping[mk] = v
         if rng.random() < 0.3:
             mapping["unused.c"] = "nothing.c"
